@@ -46,6 +46,10 @@ pub fn gen(seed: u64, tier: Tier) -> ScenarioSpec {
     spec.stream = gen::gen_stream(&mut rng, len, true);
     spec.stream2 = gen::gen_stream(&mut rng, len, false);
     spec.sink = gen::gen_sink(&mut rng, false);
+    if rng.chance(1, 8) {
+        // the disk fills up, most often within the metadata block at the end of the file
+        spec.sink.enospc_after = Some(if rng.chance(3, 4) { (len as u64).saturating_sub(3000 + 1).saturating_add(rng.below(3000)) } else { rng.below(len as u64) });
+    }
     spec.compression = *rng.pick(&[Compression::None, Compression::Lz4, Compression::Zstd]);
     if rng.chance(1, 10) {
         spec.knobs.insert("prelude".into(), *rng.pick(&[1i64, 2, 3]));
@@ -126,6 +130,16 @@ pub fn run(spec: &ScenarioSpec, ctx: &mut Ctx) -> Result<(), Violation> {
     // 2. written tail bytes == recorded tail bytes
     let wo = write_slp(&game, &spec.sink);
     note_write(ctx, &wo);
+    if wo.failed {
+        return match wo.res {
+            Res::Ok(()) => Err(Violation::new(P, "swallowed-io-error", "slippi::write", format!("the sink failed after {} bytes but slippi::write returned Ok (the metadata block is missing or cut short)", wo.data.len()))),
+            Res::Err(..) => {
+                ctx.probe("sink full: writer reported the error");
+                Ok(())
+            }
+            Res::Caught(c) => Err(caught_violation(P, "slippi::write", &c)),
+        };
+    }
     expect_ok(P, "slippi::write", wo.res)?;
     let tail = &m.bytes[m.raw_end..];
     if !wo.data.ends_with(tail) {
@@ -133,7 +147,8 @@ pub fn run(spec: &ScenarioSpec, ctx: &mut Ctx) -> Result<(), Violation> {
     }
     ctx.check();
     // 3. archive leg
-    let wz = write_slpp(game, &spec.sink, spec.compression);
+    let archive_sink = SinkSpec { enospc_after: None, ..spec.sink.clone() };
+    let wz = write_slpp(game, &archive_sink, spec.compression);
     note_write(ctx, &wz);
     if is_o7(m.v, &wz.res) {
         ctx.skip("archive leg: versions 3.0-3.6 cannot be written as .slpp (known finding of C02)");
